@@ -50,12 +50,22 @@ typedef std::vector<uint8_t> Bytes;
 // (returns what operator= returned, so that a chain a = b = c uses the returned reference)
 template<class Ad, class S> static auto copy_assign_impl(S& dst, const S& src, int) -> decltype(Ad::copy_assign(dst, src), dst) { Ad::copy_assign(dst, src); return dst; }
 template<class Ad, class S> static S& copy_assign_impl(S& dst, const S& src, long) { return dst = src; }
-template<class V> static inline void put(Bytes& out, const V& v) { out.insert(out.end(), v.begin(), v.end()); }
-static inline void put_str(Bytes& out, const std::string& s) { out.insert(out.end(), s.begin(), s.end()); }
-template<class X> static inline void put_pod(Bytes& out, X x) { const uint8_t* p = reinterpret_cast<const uint8_t*>(&x); out.insert(out.end(), p, p + sizeof(X)); }
+// the adapters' own containers are the harness's, not the library's: they are filled under Quiet so that the observer of
+// global operator new (life_rec.cpp) sees library calls only
+template<class V> static inline void put(Bytes& out, const V& v) { Quiet q; out.insert(out.end(), v.begin(), v.end()); }
+template<class X> static inline void put_pod(Bytes& out, X x) { Quiet q; const uint8_t* p = reinterpret_cast<const uint8_t*>(&x); out.insert(out.end(), p, p + sizeof(X)); }
+
+// the caller's stream for serialize(std::ostream&): a fixed buffer, so that the stream itself never allocates
+struct fixed_ostream {
+  struct buf : std::streambuf { char mem[1 << 16]; buf() { setp(mem, mem + sizeof mem); } int_type overflow(int_type c) override { setp(mem, mem + sizeof mem); return c; } };
+  buf b; std::ostream os;
+  fixed_ostream() : b(), os((++rt.quiet, nullptr)) { os.rdbuf(&b); --rt.quiet; }
+  operator std::ostream&() { return os; }
+};
 
 // deterministic item streams per op
 static inline std::vector<int> stream(int op, int many) {
+  Quiet q;
   std::vector<int> v;
   if (op == 0) { v = {5, 3, 9}; }
   else if (op == 1) { uint32_t x = 12345; for (int n = 0; n < many; n++) { x = x * 1664525u + 1013904223u; v.push_back(100 + (int)((x >> 8) % 100000)); } }
@@ -94,7 +104,7 @@ struct ThetaAd {
     auto r = u.get_result(false); (void)r.get_estimate();
   }
   static void reset(S& s, int) { s.reset(); }
-  static void serialize(const S& s) { auto c = s.compact(); auto b = c.serialize(); std::stringstream ss; c.serialize(ss); auto z = c.serialize_compressed(); }
+  static void serialize(const S& s) { auto c = s.compact(); auto b = c.serialize(); fixed_ostream ss; c.serialize(ss); auto z = c.serialize_compressed(); }
   static void image(const S& s, Bytes& out) {
     put(out, s.compact(true).serialize());
     put_pod(out, s.get_theta64()); put_pod(out, s.get_num_retained()); put_pod(out, (int)s.is_empty()); put_pod(out, (int)s.get_lg_k());
@@ -142,7 +152,7 @@ struct ThetaSetAd {
     t = u.get_result();
   }
   static void reset(S& s, int aid) { A a(aid); I x(DEFAULT_SEED, a); x.update(s); x.update(input(a, 0).compact()); N n(DEFAULT_SEED, a); s = n.compute(x.get_result(), s); }
-  static void serialize(const S& s) { auto b = s.serialize(); std::stringstream ss; s.serialize(ss); auto z = s.serialize_compressed(); }
+  static void serialize(const S& s) { auto b = s.serialize(); fixed_ostream ss; s.serialize(ss); auto z = s.serialize_compressed(); }
   static void image(const S& s, Bytes& out) { put(out, s.serialize()); put_pod(out, (int)s.is_ordered()); }
 };
 
@@ -160,7 +170,7 @@ struct KllAd {
   template<class B> static void merge(S& a, B& b) { a.merge(b); }
   static void merge_move(S& a, S&& b) { a.merge(std::move(b)); }
   static void reset(S& s, int aid) { s = S(8, probe_less(), A(aid)); }
-  static void serialize(const S& s) { auto b = s.serialize(0, probe_serde()); std::stringstream ss; s.serialize(ss, probe_serde()); }
+  static void serialize(const S& s) { auto b = s.serialize(0, probe_serde()); fixed_ostream ss; s.serialize(ss, probe_serde()); }
   static void image(const S& s, Bytes& out) { put(out, s.serialize(0, probe_serde())); put_pod(out, s.get_n()); put_pod(out, s.get_num_retained()); }
 };
 
@@ -178,7 +188,7 @@ struct ReqAd {
   template<class B> static void merge(S& a, B& b) { a.merge(b); }
   static void merge_move(S& a, S&& b) { a.merge(std::move(b)); }
   static void reset(S& s, int aid) { s = S(4, true, probe_less(), A(aid)); }
-  static void serialize(const S& s) { auto b = s.serialize(0, probe_serde()); std::stringstream ss; s.serialize(ss, probe_serde()); }
+  static void serialize(const S& s) { auto b = s.serialize(0, probe_serde()); fixed_ostream ss; s.serialize(ss, probe_serde()); }
   static void image(const S& s, Bytes& out) { put(out, s.serialize(0, probe_serde())); put_pod(out, s.get_n()); put_pod(out, s.get_num_retained()); }
 };
 
@@ -195,7 +205,7 @@ struct FiAd {
   template<class B> static void merge(S& a, B& b) { a.merge(b); }
   static void merge_move(S& a, S&& b) { a.merge(std::move(b)); }
   static void reset(S& s, int aid) { s = S(4, 3, probe_equal(), A(aid)); }
-  static void serialize(const S& s) { auto b = s.serialize(0, probe_serde()); std::stringstream ss; s.serialize(ss, probe_serde()); }
+  static void serialize(const S& s) { auto b = s.serialize(0, probe_serde()); fixed_ostream ss; s.serialize(ss, probe_serde()); }
   static void image(const S& s, Bytes& out) {
     put(out, s.serialize(0, probe_serde())); put_pod(out, s.get_total_weight()); put_pod(out, s.get_maximum_error()); put_pod(out, s.get_num_active_items());
   }
@@ -212,7 +222,7 @@ struct HllAd {
   template<class B> static void merge(S& a, B& b) { U u(9, A(9)); u.update(a); u.update(b); a = u.get_result(HLL_4); }
   static void merge_move(S& a, S&& b) { U u(9, A(9)); u.update(a); u.update(std::move(b)); a = u.get_result(HLL_4); }
   static void reset(S& s, int) { s.reset(); }
-  static void serialize(const S& s) { auto b = s.serialize_compact(); auto c = s.serialize_updatable(); std::stringstream ss; s.serialize_compact(ss); s.serialize_updatable(ss); }
+  static void serialize(const S& s) { auto b = s.serialize_compact(); auto c = s.serialize_updatable(); fixed_ostream ss; s.serialize_compact(ss); s.serialize_updatable(ss); }
   static void image(const S& s, Bytes& out) { put(out, s.serialize_updatable()); put(out, s.serialize_compact()); }
 };
 
@@ -256,7 +266,7 @@ struct CpcAd {
   template<class B> static void merge(S& a, B& b) { U u(6, DEFAULT_SEED, a.get_allocator()); u.update(a); u.update(b); a = u.get_result(); }
   static void merge_move(S& a, S&& b) { U u(6, DEFAULT_SEED, a.get_allocator()); u.update(a); u.update(std::move(b)); a = u.get_result(); }
   static void reset(S& s, int aid) { s = S(6, DEFAULT_SEED, A(aid)); }
-  static void serialize(const S& s) { auto b = s.serialize(); std::stringstream ss; s.serialize(ss); }
+  static void serialize(const S& s) { auto b = s.serialize(); fixed_ostream ss; s.serialize(ss); }
   static void image(const S& s, Bytes& out) { put(out, s.serialize()); put_pod(out, s.get_estimate()); }
 };
 
@@ -318,7 +328,7 @@ struct TupleAd {
     auto r = u.get_result(false); (void)r.get_estimate();
   }
   static void reset(S& s, int) { s.reset(); }
-  static void serialize(const S& s) { auto c = s.compact(); auto b = c.serialize(0, probe_serde()); std::stringstream ss; c.serialize(ss, probe_serde()); }
+  static void serialize(const S& s) { auto c = s.compact(); auto b = c.serialize(0, probe_serde()); fixed_ostream ss; c.serialize(ss, probe_serde()); }
   static void image(const S& s, Bytes& out) { put(out, s.compact(true).serialize(0, probe_serde())); put_pod(out, s.get_theta64()); put_pod(out, s.get_num_retained()); }
 };
 
@@ -356,7 +366,7 @@ struct TupleSetAd {
     t = u.get_result();
   }
   static void reset(S& s, int aid) { A a(aid); UP u = typename UP::builder(probe_tuple_policy(), a).set_lg_k(5).build(); s = u.compact(); }
-  static void serialize(const S& s) { auto b = s.serialize(0, probe_serde()); std::stringstream ss; s.serialize(ss, probe_serde()); }
+  static void serialize(const S& s) { auto b = s.serialize(0, probe_serde()); fixed_ostream ss; s.serialize(ss, probe_serde()); }
   static void image(const S& s, Bytes& out) { put(out, s.serialize(0, probe_serde())); put_pod(out, (int)s.is_ordered()); }
 };
 
@@ -374,7 +384,7 @@ struct QuantAd {
   template<class B> static void merge(S& a, B& b) { a.merge(b); }
   static void merge_move(S& a, S&& b) { a.merge(std::move(b)); }
   static void reset(S& s, int aid) { s = S(4, probe_less(), A(aid)); }
-  static void serialize(const S& s) { auto b = s.serialize(0, probe_serde()); std::stringstream ss; s.serialize(ss, probe_serde()); }
+  static void serialize(const S& s) { auto b = s.serialize(0, probe_serde()); fixed_ostream ss; s.serialize(ss, probe_serde()); }
   static void image(const S& s, Bytes& out) { put(out, s.serialize(0, probe_serde())); put_pod(out, s.get_n()); put_pod(out, s.get_num_retained()); }
 };
 
@@ -392,7 +402,7 @@ struct VarOptAd {
   template<class B> static void merge(S& a, B& b) { U u(8, A(9)); u.update(a); u.update(b); a = u.get_result(); }
   static void merge_move(S& a, S&& b) { U u(8, A(9)); u.update(a); u.update(std::move(b)); a = u.get_result(); }
   static void reset(S& s, int) { s.reset(); }
-  static void serialize(const S& s) { auto b = s.serialize(0, probe_serde()); std::stringstream ss; s.serialize(ss, probe_serde()); }
+  static void serialize(const S& s) { auto b = s.serialize(0, probe_serde()); fixed_ostream ss; s.serialize(ss, probe_serde()); }
   static void image(const S& s, Bytes& out) { put(out, s.serialize(0, probe_serde())); put_pod(out, s.get_n()); put_pod(out, s.get_num_samples()); }
 };
 
@@ -419,7 +429,7 @@ struct VarOptUnionAd {
   template<class B> static void merge(S& a, B& b) { SK r = b.get_result(); a.update(r); }
   static void merge_move(S& a, S&& b) { a.update(b.get_result()); S sink(std::move(b)); }
   static void reset(S& s, int) { s.reset(); }
-  static void serialize(const S& s) { auto b = s.serialize(0, probe_serde()); std::stringstream ss; s.serialize(ss, probe_serde()); }
+  static void serialize(const S& s) { auto b = s.serialize(0, probe_serde()); fixed_ostream ss; s.serialize(ss, probe_serde()); }
   static void image(const S& s, Bytes& out) { put(out, s.serialize(0, probe_serde())); put(out, s.get_result().serialize(0, probe_serde())); }
 };
 
@@ -436,7 +446,7 @@ struct EbppsAd {
   template<class B> static void merge(S& a, B& b) { a.merge(b); }
   static void merge_move(S& a, S&& b) { a.merge(std::move(b)); }
   static void reset(S& s, int) { s.reset(); }
-  static void serialize(const S& s) { auto b = s.serialize(0, probe_serde()); std::stringstream ss; s.serialize(ss, probe_serde()); }
+  static void serialize(const S& s) { auto b = s.serialize(0, probe_serde()); fixed_ostream ss; s.serialize(ss, probe_serde()); }
   static void image(const S& s, Bytes& out) { put(out, s.serialize(0, probe_serde())); put_pod(out, s.get_n()); put_pod(out, s.get_c()); }
 };
 
@@ -454,7 +464,7 @@ struct BloomAd {
   template<class B> static void merge(S& a, B& b) { a.union_with(b); }
   static void merge_move(S& a, S&& b) { a.union_with(b); S sink(std::move(b)); }
   static void reset(S& s, int) { s.reset(); }
-  static void serialize(const S& s) { auto b = s.serialize(); std::stringstream ss; s.serialize(ss); }
+  static void serialize(const S& s) { auto b = s.serialize(); fixed_ostream ss; s.serialize(ss); }
   static void image(const S& s, Bytes& out) { put(out, s.serialize()); put_pod(out, s.get_capacity()); }
 };
 
@@ -468,7 +478,7 @@ struct CountMinAd {
   template<class B> static void merge(S& a, B& b) { a.merge(b); }
   static void merge_move(S& a, S&& b) { a.merge(b); S sink(std::move(b)); }
   static void reset(S& s, int aid) { s = S(3, 16, DEFAULT_SEED, A(aid)); }
-  static void serialize(const S& s) { auto b = s.serialize(); std::stringstream ss; s.serialize(ss); }
+  static void serialize(const S& s) { auto b = s.serialize(); fixed_ostream ss; s.serialize(ss); }
   static void image(const S& s, Bytes& out) { put(out, s.serialize()); put_pod(out, s.get_total_weight()); }
 };
 
@@ -482,7 +492,7 @@ struct TDigestAd {
   template<class B> static void merge(S& a, B& b) { a.merge(b); }
   static void merge_move(S& a, S&& b) { a.merge(b); S sink(std::move(b)); }
   static void reset(S& s, int aid) { s = S(10, A(aid)); }
-  static void serialize(const S& s) { auto b = s.serialize(0, true); std::stringstream ss; s.serialize(ss, false); }
+  static void serialize(const S& s) { auto b = s.serialize(0, true); fixed_ostream ss; s.serialize(ss, false); }
   // serializing without the buffer (like every query) first merges the buffered values into the centroids (DESIGN 4.2): the
   // digest is the compressed image, which that side effect leaves unchanged
   static void image(const S& s, Bytes& out) { put(out, s.serialize(0, false)); put_pod(out, s.get_total_weight()); }
@@ -510,7 +520,7 @@ struct DensityAd {
   template<class B> static void merge(S& a, B& b) { a.merge(b); }
   static void merge_move(S& a, S&& b) { a.merge(std::move(b)); }
   static void reset(S& s, int aid) { s = S(4, 2, life_kernel(), A(aid)); }
-  static void serialize(const S& s) { auto b = s.serialize(); std::stringstream ss; s.serialize(ss); }
+  static void serialize(const S& s) { auto b = s.serialize(); fixed_ostream ss; s.serialize(ss); }
   static void image(const S& s, Bytes& out) { put(out, s.serialize()); put_pod(out, s.get_n()); }
 };
 
